@@ -2,7 +2,7 @@
 (* Bounded-exhaustive model check of UriCodec (C07) and emission of cases for S->I replay. *)
 EXTENDS UriCodec, Json, IOUtils
 
-CONSTANTS Mode,      \* "bytes" | "pairs" | "shapes" | "combo" | "long"
+CONSTANTS Mode,      \* "bytes" | "pairs" | "pct" | "shapes" | "combo" | "long"
           MaxQ,      \* query operations per shape in "shapes" mode
           EmitMod
 
@@ -21,6 +21,13 @@ Struct == {A(b) : b \in {37, 38, 43, 35, 47, 63, 61, 32, 59, 58, 64, 44, 36, 46,
           \cup {<<195, 169>>}
 Struct12 == {A(b) : b \in {37, 38, 43, 35, 47, 63, 61, 32, 46, 97, 50}} \cup {<<195, 169>>}
 Tiny == {<<>>, <<97>>, <<38, 61>>}
+(* values that LOOK percent-encoded: "%" + two characters over hex digits / a non-hex letter, bare and behind "%25" or text.
+   One decoding step too many (or too few) on either side changes them. *)
+HexLike == {A(b) : b \in {48, 50, 52, 53, 65, 70, 102, 71}}        \* 0 2 4 5 A F f G
+PctVals == {<<37>> \o a \o b : a \in HexLike, b \in HexLike}
+           \cup {<<37, 50, 53>> \o a \o b : a \in {A(52), A(50)}, b \in {A(49), A(70)}}          \* "%2541", "%252F", ...
+           \cup {<<97>> \o <<37>> \o a \o b \o <<98>> : a \in {A(50), A(52)}, b \in {A(70), A(49)}}  \* "a%2Fb", "a%41b"
+           \cup {<<37>>, <<37, 37>>, <<37, 52>>, <<37, 37, 52, 49>>, <<43, 37, 50, 66>>}
 
 Lit1 == <<47, 97>>                 \* "/a"
 Lit2 == <<47, 98, 47, 99>>         \* "/b/c"
@@ -30,7 +37,7 @@ PathParts == {<<"lit">>, <<"lit", "path">>, <<"lit", "path", "lit">>, <<"path">>
 QKinds == {"q1", "qopt", "qlist", "qset"}
 QueryParts == UNION {[1..n -> QKinds] : n \in 0..MaxQ}
 
-Shapes == CASE Mode \in {"bytes", "pairs", "long"} -> {<<"lit", "path", "lit", "q1", "q1">>}
+Shapes == CASE Mode \in {"bytes", "pairs", "pct", "long"} -> {<<"lit", "path", "lit", "q1", "q1">>}
             [] Mode = "combo" -> {<<"lit", "path", "path", "q1", "q1">>}
             [] OTHER -> {p \o q : p \in PathParts, q \in QueryParts}
 
@@ -38,6 +45,7 @@ ValueSlots(sh) == {i \in 1..Len(sh) : sh[i] # "lit"}
 
 SingleVals == CASE Mode = "bytes" -> AllAtoms
                 [] Mode = "pairs" -> {a \o b : a \in Struct, b \in Struct}
+                [] Mode = "pct" -> PctVals
                 [] Mode = "combo" -> Struct12 \cup {<<>>}
                 [] Mode = "long"  -> {[i \in 1..n |-> 97] : n \in {MaxUriLen - 14, MaxUriLen - 13, MaxUriLen}}
                 [] OTHER -> Tiny
@@ -51,7 +59,7 @@ ValsFor(kind) == CASE kind = "path" -> {<<v>> : v \in SingleVals}
                    [] kind = "qlist" -> ListSeqs
                    [] kind = "qset" -> SetSeqs
 
-OneHot == Mode \in {"bytes", "pairs", "long"}
+OneHot == Mode \in {"bytes", "pairs", "pct", "long"}
 
 NumLits(sh, i) == Cardinality({j \in 1..i : sh[j] = "lit"})
 NumQ(sh, i) == Cardinality({j \in 1..i : sh[j] \notin {"lit", "path"}})
